@@ -567,6 +567,11 @@ func (g *ProgGen) Stmt() (string, bool) {
 						return a + "." + Pick(g.r, []string{"pop", "shift"}) + "()", false
 					}
 				case 3:
+					if g.r.Chance(1, 3) {
+						// a name rebound to a fresh container that equals the old one, while an alias of the old one
+						// is still around: afterwards only the new one may change
+						return "alias1 = " + a + "; " + a + " = " + a + " + []; " + a + "[0] = " + g.lit() + "; alias1", false
+					}
 					return a + "[" + strconv.Itoa(g.r.Range(0, 1)) + ":" + strconv.Itoa(g.r.Range(1, 2)) + "] = " + g.Arr(), false
 				default:
 					if g.o.RandMeth {
@@ -694,6 +699,10 @@ func (g *ProgGen) Stmt() (string, bool) {
 						g.arrs = addUniq(g.arrs, n)
 						return n + " = [&" + c + ", &" + c + ", 1]", false
 					}
+				}
+				if g.r.Chance(1, 4) {
+					// the same definition text executed again after an attribute was set on the first value
+					return "&rd = (this.x ?? 0) + 1; &rd.x = 5; &rd = (this.x ?? 0) + 1; rd", false
 				}
 				if g.r.Chance(1, 3) {
 					// a computed value whose body yields another computed value, unevaluated
